@@ -70,6 +70,7 @@ type Group struct {
 
 	allocSeq  map[unsafe.Pointer]uint64
 	nextAlloc uint64
+	unknownInSnapshot int
 
 	Ticks      uint64
 	MaxDepth   int
@@ -406,8 +407,10 @@ func Reg[T any](p *T) *T {
 		return p
 	}
 	g := t.G
-	g.nextAlloc++
-	g.allocSeq[unsafe.Pointer(p)] = g.nextAlloc
+	if _, known := g.allocSeq[unsafe.Pointer(p)]; !known {
+		g.nextAlloc++
+		g.allocSeq[unsafe.Pointer(p)] = g.nextAlloc
+	}
 	return p
 }
 
@@ -492,7 +495,16 @@ func (g *Group) keyOf(v reflect.Value, site int) sortKey {
 		p := v.UnsafePointer()
 		seq, ok := g.allocSeq[p]
 		if !ok {
-			panic(HarnessError{Msg: fmt.Sprintf("map key of type %s at range site %s was not allocated through an owned allocation site; cannot give it a canonical order", v.Type(), SiteName(site))})
+			// a pointer that was not created in module code (e.g. returned by the standard library). One such key per
+			// snapshot can still be numbered deterministically (it is registered now); two or more cannot, because the
+			// order in which this snapshot met them is the runtime's map order.
+			if g.unknownInSnapshot > 0 {
+				panic(HarnessError{Msg: fmt.Sprintf("two map keys of type %s at range site %s were not created by module code; cannot give them a canonical order", v.Type(), SiteName(site))})
+			}
+			g.unknownInSnapshot++
+			g.nextAlloc++
+			seq = g.nextAlloc
+			g.allocSeq[p] = seq
 		}
 		return sortKey{class: 1, u: seq}
 	case reflect.Struct:
@@ -525,6 +537,7 @@ func snapshot[M ~map[K]V, K comparable, V any](site int, m M) ([]K, []int) {
 		keys = append(keys, k)
 	}
 	if len(keys) > 1 {
+		g.unknownInSnapshot = 0
 		sk := make([]sortKey, len(keys))
 		idx := make([]int, len(keys))
 		for i := range keys {
